@@ -12,17 +12,23 @@
 |hv: &HeaderValue| -> (o: Option<&str>) ensures (o is Some) == hv_is_text(*hv), o is Some ==> o->Some_0@ == hv_view(*hv)
 //@ closure 1
 |hv: &str| -> (b: bool) ensures b == has_token(hv, "upgrade"@)
+proof { assert(pieces_by(hv, list_separators()) == pieces_by(hv, list_separators())); }
 //@ closure 2
-|vs: &str| -> (b: bool) ensures b == (ascii_lower(vs@) == ascii_lower("upgrade"@))
+|c: char| -> (b: bool) ensures b == list_separators().contains(c)
 //@ closure 3
-|v: &HeaderValue| -> (o: Option<&str>) ensures (o is Some) == hv_is_text(*v), o is Some ==> o->Some_0@ == hv_view(*v)
+|vs: &str| -> (b: bool) ensures b == (ascii_lower(vs@) == ascii_lower("upgrade"@))
 //@ closure 4
-|v: &str| -> (b: bool) ensures b == has_token(v, "websocket"@)
+|v: &HeaderValue| -> (o: Option<&str>) ensures (o is Some) == hv_is_text(*v), o is Some ==> o->Some_0@ == hv_view(*v)
 //@ closure 5
-|v: &str| -> (b: bool) ensures b == (ascii_lower(v@) == ascii_lower("websocket"@))
+|v: &str| -> (b: bool) ensures b == has_token(v, "websocket"@)
+proof { assert(pieces_by(v, list_separators()) == pieces_by(v, list_separators())); }
 //@ closure 6
-|hv: &HeaderValue| -> (k: &[u8]) ensures k@ == hv_bytes(*hv)
+|c: char| -> (b: bool) ensures b == list_separators().contains(c)
 //@ closure 7
-|key: &[u8]| -> (a: String) ensures a@ == accept_of(key@)
+|v: &str| -> (b: bool) ensures b == (ascii_lower(v@) == ascii_lower("websocket"@))
 //@ closure 8
+|hv: &HeaderValue| -> (k: &[u8]) ensures k@ == hv_bytes(*hv)
+//@ closure 9
+|key: &[u8]| -> (a: String) ensures a@ == accept_of(key@)
+//@ closure 10
 || -> (h: HttpError) ensures status_of(h) == 400
